@@ -463,7 +463,10 @@ func (g *graph) addBranch(startNode string, branch *GraphBranch, skipData bool) 
 	}
 	branch.idx = len(g.handlerPreBranch[startNode])
 
-	if startNode != START && g.nodes[startNode].executorMeta.component == ComponentOfPassthrough {
+	// a passthrough start node takes the condition's input type only while its own type is
+	// still unknown; a type already inferred from an edge is kept and checked below like any other node's
+	if startNode != START && g.nodes[startNode].executorMeta.component == ComponentOfPassthrough &&
+		g.getNodeOutputType(startNode) == nil {
 		g.nodes[startNode].cr.inputType = branch.inputType
 		g.nodes[startNode].cr.outputType = branch.inputType
 		g.nodes[startNode].cr.genericHelper = branch.genericHelper.forPredecessorPassthrough()
